@@ -1,0 +1,95 @@
+//go:build verif
+
+package keeper
+
+// Contracts for the verification framework in /verif (comment-only file; compiled
+// only with -tags verif, where it contributes nothing but these comments).
+
+//@ // ---- typed ghost view of the vesting-pool store: per owner a sequence of pool records ----
+//@ ghost pFound [str]bool
+//@ ghost pLen [str]int
+//@ ghost pName [str][int]str
+//@ ghost pType [str][int]str
+//@ ghost pLockStart [str][int]int
+//@ ghost pLockEnd [str][int]int
+//@ ghost pIL [str][int]int
+//@ ghost pW [str][int]int
+//@ ghost pS [str][int]int
+//@ ghost pGenesis [str][int]bool
+//@ ghost vestingDenom str
+//@
+//@ // pool object p carries the record stored for owner o at position i
+//@ pred poolEq(p, o, i) = p.Name == $pName[o][i] && p.VestingType == $pType[o][i] && p.LockStart == $pLockStart[o][i]
+//@   && p.LockEnd == $pLockEnd[o][i] && !p.InitiallyLocked.IsNil() && p.InitiallyLocked == $pIL[o][i]
+//@   && !p.Withdrawn.IsNil() && p.Withdrawn == $pW[o][i] && !p.Sent.IsNil() && p.Sent == $pS[o][i] && p.GenesisPool == $pGenesis[o][i]
+//@
+//@ func (k Keeper) GetAccountVestingPools(ctx, accountAddress) (avp, found)
+//@   trusted
+//@   ensures found == $pFound[accountAddress]
+//@   ensures !found ==> len(avp.VestingPools) == 0 && avp.VestingPools == nil
+//@   ensures found ==> avp.Owner == accountAddress && len(avp.VestingPools) == $pLen[accountAddress] && $pLen[accountAddress] >= 0
+//@   ensures found ==> freshSlice(avp.VestingPools)
+//@   ensures found ==> (forall i :: {avp.VestingPools[i]} 0 <= i && i < len(avp.VestingPools) ==>
+//@     fresh(avp.VestingPools[i]) && poolEq(avp.VestingPools[i], accountAddress, i))
+//@   ensures found ==> (forall i, j :: {avp.VestingPools[i], avp.VestingPools[j]} 0 <= i && i < j && j < len(avp.VestingPools) ==> avp.VestingPools[i] != avp.VestingPools[j])
+//@
+//@ func (k Keeper) SetAccountVestingPools(ctx, avp)
+//@   trusted
+//@   requires forall i :: {avp.VestingPools[i]} 0 <= i && i < len(avp.VestingPools) ==> avp.VestingPools[i] != nil
+//@   modifies $pFound, $pLen, $pName, $pType, $pLockStart, $pLockEnd, $pIL, $pW, $pS, $pGenesis
+//@   ensures $pFound == store(old($pFound), avp.Owner, true) && $pLen == store(old($pLen), avp.Owner, len(avp.VestingPools))
+//@   ensures forall i :: {avp.VestingPools[i]} 0 <= i && i < len(avp.VestingPools) ==> poolEq(avp.VestingPools[i], avp.Owner, i)
+//@   ensures forall o: str :: {$pIL[o]} o != avp.Owner ==> $pName[o] == old($pName[o]) && $pType[o] == old($pType[o]) && $pLockStart[o] == old($pLockStart[o])
+//@     && $pLockEnd[o] == old($pLockEnd[o]) && $pIL[o] == old($pIL[o]) && $pW[o] == old($pW[o]) && $pS[o] == old($pS[o]) && $pGenesis[o] == old($pGenesis[o])
+//@
+//@ func (k Keeper) GetParams(ctx) (p)
+//@   trusted
+//@   ensures p.Denom == $vestingDenom
+//@
+//@ // ---- C06: the time lock ----
+//@ func CalculateWithdrawable(current, vestingPool) (res)
+//@   requires !vestingPool.InitiallyLocked.IsNil() && !vestingPool.Sent.IsNil() && !vestingPool.Withdrawn.IsNil()
+//@   ensures !res.IsNil()
+//@   ensures current >= vestingPool.LockEnd ==> res == vestingPool.InitiallyLocked - vestingPool.Sent - vestingPool.Withdrawn
+//@   ensures current < vestingPool.LockEnd ==> res == 0
+//@   prop C06
+//@
+//@ spec func wdOf(il int, s int, w int, le int, t int) int = t >= le ? il - s - w : 0
+//@ // total withdrawable of the first n pools of a row
+//@ spec func sumWd(il [int]int, s [int]int, w [int]int, le [int]int, t int, n int) int =
+//@   n <= 0 ? 0 : sumWd(il, s, w, le, t, n - 1) + wdOf(il[n - 1], s[n - 1], w[n - 1], le[n - 1], t)
+//@ // per-pool solvency (C05): 0 <= W, 0 <= S, W + S <= IL
+//@ pred poolsOK(o) = $pLen[o] >= 0 && (forall i :: {$pIL[o][i]} 0 <= i && i < $pLen[o] ==> $pW[o][i] >= 0 && $pS[o][i] >= 0 && $pW[o][i] + $pS[o][i] <= $pIL[o][i])
+//@ pred poolUnchanged(o, i) = $pName[o][i] == old($pName[o][i]) && $pType[o][i] == old($pType[o][i]) && $pLockStart[o][i] == old($pLockStart[o][i])
+//@   && $pLockEnd[o][i] == old($pLockEnd[o][i]) && $pIL[o][i] == old($pIL[o][i]) && $pS[o][i] == old($pS[o][i]) && $pGenesis[o][i] == old($pGenesis[o][i])
+//@ pred otherOwnersUnchanged(o) = forall o2: str :: {$pIL[o2]} o2 != o ==> $pFound[o2] == old($pFound[o2]) && $pLen[o2] == old($pLen[o2])
+//@   && $pName[o2] == old($pName[o2]) && $pType[o2] == old($pType[o2]) && $pLockStart[o2] == old($pLockStart[o2]) && $pLockEnd[o2] == old($pLockEnd[o2])
+//@   && $pIL[o2] == old($pIL[o2]) && $pW[o2] == old($pW[o2]) && $pS[o2] == old($pS[o2]) && $pGenesis[o2] == old($pGenesis[o2])
+//@ pred poolStoreUnchanged() = $pFound == old($pFound) && $pLen == old($pLen) && $pName == old($pName) && $pType == old($pType)
+//@   && $pLockStart == old($pLockStart) && $pLockEnd == old($pLockEnd) && $pIL == old($pIL) && $pW == old($pW) && $pS == old($pS) && $pGenesis == old($pGenesis)
+//@
+//@ func (k Keeper) WithdrawAllAvailable(ctx, owner) (withdrawn, returnedError)
+//@   requires poolsOK(owner)
+//@   modifies $pFound, $pLen, $pName, $pType, $pLockStart, $pLockEnd, $pIL, $pW, $pS, $pGenesis, $bal, $evCount, $evTag, $evRef
+//@   ensures returnedError != nil ==> poolStoreUnchanged() && $bal == old($bal)
+//@   ensures returnedError == nil ==> old($pFound[owner]) && old($pLen[owner]) > 0 && $pFound[owner] && $pLen[owner] == old($pLen[owner]) && otherOwnersUnchanged(owner)
+//@   // time lock: a pool whose lock end is in the future is untouched; a matured pool is paid out completely
+//@   ensures returnedError == nil ==> (forall i :: {$pW[owner][i]} 0 <= i && i < $pLen[owner] ==> poolUnchanged(owner, i)
+//@     && $pW[owner][i] == old($pW[owner][i]) + wdOf(old($pIL[owner][i]), old($pS[owner][i]), old($pW[owner][i]), old($pLockEnd[owner][i]), $blockTime))
+//@   ensures returnedError == nil ==> !withdrawn.Amount.IsNil() && withdrawn.Denom == $vestingDenom
+//@     && withdrawn.Amount == sumWd(old($pIL[owner]), old($pS[owner]), old($pW[owner]), old($pLockEnd[owner]), $blockTime, old($pLen[owner]))
+//@   // the coins paid leave the module account and reach the owner
+//@   ensures returnedError == nil ==> $bal[modaddr("cfevesting")][$vestingDenom] == old($bal[modaddr("cfevesting")][$vestingDenom]) - withdrawn.Amount
+//@   ensures returnedError == nil && fromBech32(owner) != modaddr("cfevesting") ==> $bal[fromBech32(owner)][$vestingDenom] == old($bal[fromBech32(owner)][$vestingDenom]) + withdrawn.Amount
+//@   ensures forall a: str :: {$bal[a]} a != modaddr("cfevesting") && a != fromBech32(owner) ==> $bal[a] == old($bal[a])
+//@   prop C06 C05
+//@ loop Keeper.WithdrawAllAvailable#1
+//@   invariant 0 <= \i && \i <= len(accVestingPools.VestingPools)
+//@   invariant !toWithdraw.IsNil() && toWithdraw == sumWd($pIL[owner], $pS[owner], $pW[owner], $pLockEnd[owner], $blockTime, \i) && toWithdraw >= 0
+//@   invariant forall j :: {accVestingPools.VestingPools[j]} \i <= j && j < len(accVestingPools.VestingPools) ==> poolEq(accVestingPools.VestingPools[j], owner, j)
+//@   invariant forall j :: {accVestingPools.VestingPools[j]} 0 <= j && j < \i ==>
+//@     (let p = accVestingPools.VestingPools[j] in p.Name == $pName[owner][j] && p.VestingType == $pType[owner][j] && p.LockStart == $pLockStart[owner][j]
+//@     && p.LockEnd == $pLockEnd[owner][j] && !p.InitiallyLocked.IsNil() && p.InitiallyLocked == $pIL[owner][j] && !p.Sent.IsNil() && p.Sent == $pS[owner][j]
+//@     && p.GenesisPool == $pGenesis[owner][j] && !p.Withdrawn.IsNil()
+//@     && p.Withdrawn == $pW[owner][j] + wdOf($pIL[owner][j], $pS[owner][j], $pW[owner][j], $pLockEnd[owner][j], $blockTime))
+//@   decreases len(accVestingPools.VestingPools) - \i
